@@ -206,6 +206,20 @@ func gen(seed uint64, tier string, o *hx.Out) {
 		o.Case(line)
 		o.Obs(runCase(line))
 	}
+	// label+seed lengths x output lengths (pHash builds A(i) || seed: boundaries of any fixed-size scratch buffer)
+	for _, ls := range []int{0, 1, 31, 32, 33, 63, 64, 65, 95, 96, 97, 127, 128, 129, 200, 300, 1000} {
+		for _, n := range []int{1, 31, 32, 33, 64, 65, 100, 300} {
+			ll := r.Pick([]int{0, 13, 15, 22})
+			if ll > ls {
+				ll = ls
+			}
+			id++
+			line := fmt.Sprintf("F %d %s %s %s %d", id, hexOrDot(r.Bytes(r.Pick([]int{0, 1, 48, 64, 65}))),
+				hexOrDot(r.Bytes(ll)), hexOrDot(r.Bytes(ls-ll)), n)
+			o.Case(line)
+			o.Obs(runCase(line))
+		}
+	}
 	for i := 0; i < nC; i++ {
 		k := 1 + r.Intn(5)
 		recs := make([]string, k)
